@@ -44,7 +44,11 @@ def seal(ctx, layout, ancestor, invocation, order, pats=("*.tmp",)):
     exits = []
     now = sub.NOW0
     try:
-        for i, r in enumerate(list(nested) + [""]):
+        first_file = sorted(p for p, c in tree.items() if c is not DIR)[0]
+        # every nested root, then the top twice (the second generation of a history that already has an ascmhl folder and
+        # child references), then a -sf generation
+        steps = [(r, None) for r in nested] + [("", None), ("", None), ("", first_file)]
+        for i, (r, sf) in enumerate(steps):
             target = os.path.join(root, r) if r else root
             args, cwd = [target], None
             if invocation == "trailing-slash":
@@ -54,6 +58,9 @@ def seal(ctx, layout, ancestor, invocation, order, pats=("*.tmp",)):
             elif invocation == "dot-from-inside":
                 args, cwd = ["."], target
             args += ["-h", "md5"]
+            if sf is not None:
+                args += ["-sf", os.path.join(root, sf) if invocation in ("absolute", "trailing-slash") else
+                         (os.path.join(os.path.basename(target), sf) if invocation == "relative-from-parent" else sf)]
             for p in pats:
                 args += ["-i", p]
             res = ctx.run("create", args, now=now + 10 * i, cwd=cwd, order=sp_order)
@@ -154,7 +161,20 @@ def main(tier, seed):
                 cases.append(dict(common, ancestor=anc, invocation=inv, verify_copy=True))
         maxn = 4 if name in ("flat", "nested-siblings") else 3
         n = 0
-        for od in orders(layout[0], layout[1], maxn):
+        all_orders = list(orders(layout[0], layout[1], maxn))
+        # the ascmhl folders themselves (manifests + chain file) listed in every order as well
+        asc = {}
+        for p in btree:
+            if p.split("/")[-1] == "ascmhl" and btree[p] is DIR:
+                asc["root/" + p] = sorted(q.split("/")[-1] for q in btree if ref.parent(q) == p)
+        keys = sorted(k for k, v in asc.items() if len(v) <= 5)
+        import random
+        rng = random.Random(7)
+        for _ in range(40 if tier == "quick" else 200):
+            od = {k: rng.sample(asc[k], len(asc[k])) for k in keys}
+            od.update(rng.choice(all_orders) if all_orders else {})
+            all_orders.append(od)
+        for od in all_orders:
             # the ascmhl folder is not present during the first listing of a directory: give both index layouts
             cases.append(dict(common, ancestor="plain", invocation="absolute", order=od))
             n += 1
@@ -166,13 +186,15 @@ def main(tier, seed):
         eng.outcome((case["layout"], "order" if case.get("order") else "location", "viol" if vs else "ok"))
     for c in cases[:: max(1, len(cases) // 6)]:
         eng.sample({"layout": c["layout"], "ancestor": c["ancestor"], "invocation": c["invocation"], "listing": c.get("order") or "sorted"})
-    ncmd = sum(len(c["layout_def"][1]) + 1 + (3 if c.get("verify_copy") else 0) for c in cases)
+    ncmd = sum(len(c["layout_def"][1]) + 3 + (3 if c.get("verify_copy") else 0) for c in cases)
     cov = {"states": len(cases), "transitions": ncmd, "traces_validated_against_impl": ncmd, "exhaustive": True,
            "rule": "layouts {flat, nested siblings A / AB (thorough: + three nested roots incl. a chain, wider flat)} sealed with the "
                    "same names, contents, mtimes, virtual clock and -i *.tmp at <scratch>/<ancestor>/root for ancestor in {plain, "
                    "ascmhl, x.tmp (matches the pattern), .DS_Store, 'with space'} x invocation {absolute, trailing slash, relative "
                    "from the parent, '.' from inside}; and under EVERY combination of permutations of the directory listings "
-                   "(os.listdir / os.scandir seam) of all directories with <=4 entries; oracle: the ascmhl folders are byte-identical "
+                   "(os.listdir / os.scandir seam) of all directories with <=4 entries, plus a fixed set of 40 (thorough 200) listings that also "
+                   "shuffle the entries of every ascmhl folder (enumerated from a seeded generator: an addition, not the deciding part); "
+                   "each scenario seals the nested roots, then the top twice, then a -sf generation; oracle: the ascmhl folders are byte-identical "
                    "to the baseline (plain location, sorted listing); the baseline's sealed tree copied to each location verifies "
                    "(verify, diff, verify -dh exit 0)"}
     return eng.finish(cov, eval_case)
